@@ -64,6 +64,9 @@ func (e *Engine) VerifyFunction(key string, opts VerifyOpts) (*FuncResult, error
 		for _, cl := range ct.Requires {
 			vc.assume(st, pre.bool(pre.eval(cl.Expr), cl.Expr))
 		}
+		for _, cl := range ct.ObjInv {
+			vc.assume(st, pre.bool(pre.eval(cl.Expr), cl.Expr))
+		}
 	}
 	// check the contract's loop ordinals exist
 	if ct != nil {
@@ -94,6 +97,11 @@ func (e *Engine) VerifyFunction(key string, opts VerifyOpts) (*FuncResult, error
 		for _, cl := range ct.Ensures {
 			g := post.bool(post.eval(cl.Expr), cl.Expr)
 			vc.oblige(exit, "post", fmt.Sprint(cl.Idx), "postcondition: "+cl.Text, g, cl.Tags, fn.Pos(), false)
+		}
+		for _, cl := range ct.ObjInv {
+			inv := vc.contractCtx(exit, vc.entry, ct, fn, fn.Signature, nil, args)
+			g := inv.bool(inv.eval(cl.Expr), cl.Expr)
+			vc.oblige(exit, "objinv", fmt.Sprint(cl.Idx), "object invariant re-established: "+cl.Text, g, cl.Tags, fn.Pos(), false)
 		}
 		vc.frameObligations(exit, ct, fn, args)
 	}
@@ -129,11 +137,26 @@ func (vc *VC) frameObligations(exit *State, ct *Contract, fn *ssa.Function, args
 	pre := vc.contractCtx(vc.entry, nil, ct, fn, fn.Signature, nil, args)
 	locs := vc.evalModifies(pre, ct)
 	byKey := map[string][]loc{}
+	everything := false
 	for _, l := range locs {
 		if l.all {
-			return
+			everything = true
+			continue
 		}
 		byKey[l.key] = append(byKey[l.key], l)
+	}
+	preservedKeys := map[string]bool{}
+	if everything {
+		for _, cl := range ct.Preserves {
+			for _, l := range vc.evalLoc(pre, cl.Expr, ct) {
+				if !l.all && len(l.idx) == 0 {
+					preservedKeys[l.key] = true
+				}
+			}
+		}
+		if len(preservedKeys) == 0 {
+			return
+		}
 	}
 	a0 := vc.allocCounter(vc.entry)
 	keys := make([]string, 0, len(exit.heap))
@@ -151,7 +174,13 @@ func (vc *VC) frameObligations(exit *State, ct *Contract, fn *ssa.Function, args
 		if !ok || cur == old {
 			continue
 		}
+		if everything && !preservedKeys[k] {
+			continue
+		}
 		ls := byKey[k]
+		if everything {
+			ls = nil
+		}
 		whole := false
 		for _, l := range ls {
 			if len(l.idx) == 0 {
